@@ -44,6 +44,38 @@ pub fn real(goal: &Leaf, cand: &Leaf, s: u8) -> (bool, bool, u8) {
   r
 }
 
+/// one-token pattern vs one leaf: (matched, potential_kinds() is None, the set contains the
+/// candidate's kind)
+pub fn real_kinds(goal: &Leaf, cand: &Leaf, s: u8) -> (bool, bool, bool) {
+  let node = PatternNode::Terminal {
+    text: as_str(&[goal.text], 1).to_string(),
+    is_named: goal.named,
+    kind_id: goal.kind,
+  };
+  let p: ast_grep_core::Pattern<HL> =
+    ast_grep_core::verif_hooks::pattern::pattern_from_parts(node, None, strictness_of(s));
+  let mut cands = [*cand; KMAX];
+  cands[0] = *cand;
+  let mut src = [b' '; KMAX];
+  let d = flat_tree(&cands, 1, K_CALL, &mut src);
+  let g = mk_grep(as_str(&src, 1), d);
+  let c = g.root().child(0).unwrap();
+  let env = MetaVarEnv::new();
+  let mut cow = Cow::Borrowed(&env);
+  let m = p.match_node_with_env(c, &mut cow).is_some();
+  let kinds = p.potential_kinds();
+  let r = match &kinds {
+    None => (m, true, false),
+    Some(set) => (m, false, set.contains(cand.kind as usize)),
+  };
+  std::mem::forget(kinds);
+  std::mem::forget(cow);
+  std::mem::forget(env);
+  std::mem::forget(g);
+  std::mem::forget(p);
+  r
+}
+
 /// pattern = an internal node (kind `call`) with ONE terminal child, candidate = FLAT(k):
 /// a `call` node with k leaves.  Returns (matched, fixed is empty, fixed's byte, candidate text)
 pub fn real_internal(goal: &Leaf, cands: &[Leaf; KMAX], k: usize, s: u8) -> (bool, bool, u8, [u8; KMAX]) {
@@ -271,6 +303,22 @@ mod proofs {
   #[kani::unwind(8)]
   fn c01_prefilter_internal_k2() {
     internal(2);
+  }
+
+  /// kind dispatch of `FindAllNodes` for one-token patterns: a node the pattern matches is
+  /// never outside `potential_kinds()`.  Goal kinds exclude ERROR here (a `BitSet` holding
+  /// 65535 grows by 2048 words: out of the unwinding bound).
+  #[kani::proof]
+  #[kani::unwind(8)]
+  fn c01_potential_kinds_terminal() {
+    let goal = any_leaf(false);
+    let cand = any_leaf(false);
+    let s: u8 = kani::any();
+    kani::assume(s < 5);
+    let (m, none, contains) = real_kinds(&goal, &cand, s);
+    kani::cover!(m);
+    kani::cover!(!m && !none && !contains);
+    assert!(!m || none || contains, "a matched node's kind is in the pattern's potential kinds");
   }
 
   #[kani::proof]
